@@ -208,7 +208,7 @@ func RuleOrder(r *Report, p *Program, tier string) {
 			"((time.Time).UnixMilli(" + o + ")/1000)",
 			"(time.Time).Unix(" + o + ")",
 			"((time.Time).UnixMicro(" + o + ")/1000000)",
-			"((time.Time).UnixNano(" + o + ")/1000000000)",
+			// not UnixNano()/1e9: int64 nanoseconds wrap outside the years 1678..2262
 		}
 	}
 	tmp := NewReport(r.Property, r.Tier)
